@@ -106,6 +106,8 @@ type Built struct {
 	NExprs  int
 	// Problems: reasons why the emitted file would not compile / load.
 	Problems []string
+	// VariantBroken: the runtime variant for this flag set did not compile.
+	VariantBroken bool
 }
 
 var (
@@ -118,16 +120,24 @@ func initVariants() error {
 	if variants != nil {
 		return nil
 	}
+	n := 0
 	for i, rt := range rtapi.Runtimes {
 		if rt == nil {
-			return fmt.Errorf("runtime variant %d not linked", i)
+			continue // variant did not compile (build/rt/broken.txt)
 		}
+		n++
 		variants = append(variants, []byte(rt.Suffix()+rt.RangeTable()))
 		variantIdx = append(variantIdx, i)
 	}
 	for i, rt := range rtapi.Runtimes {
+		if rt == nil {
+			continue
+		}
 		variants = append(variants, []byte(rt.Suffix()))
 		variantIdx = append(variantIdx, i)
+	}
+	if n == 0 {
+		return fmt.Errorf("no runtime variant compiled")
 	}
 	return nil
 }
@@ -166,6 +176,11 @@ func (w *Worker) Build(text string, gen Gen) (*Built, error) {
 	b.Src = r.Src
 	prefix, vi := golit.SplitSuffix(r.Src, variants)
 	if vi < 0 {
+		if len(BrokenVariants()) > 0 {
+			b.Problems = append(b.Problems, "the runtime for this flag set does not compile (build/rt/broken.txt)")
+			b.VariantBroken = true
+			return b, nil
+		}
 		b.Problems = append(b.Problems, "static code of the emitted file matches none of the 16 runtime variants")
 		return b, nil
 	}
@@ -393,4 +408,20 @@ func looseEOF(msg string, n int) string {
 		}
 		return m
 	})
+}
+
+// BrokenVariants returns the lines of build/rt/broken.txt (runtime variants
+// of the working tree that do not compile).
+func BrokenVariants() []string {
+	b, err := os.ReadFile(filepath.Join(Root(), "build", "rt", "broken.txt"))
+	if err != nil {
+		return nil
+	}
+	var out []string
+	for _, l := range strings.Split(string(b), "\n") {
+		if strings.TrimSpace(l) != "" {
+			out = append(out, l)
+		}
+	}
+	return out
 }
